@@ -52,7 +52,10 @@ pub struct WaitGroup {
 /// Inner state of a `WaitGroup`.
 struct Inner {
     cvar: Condvar,
+    #[cfg(not(may_verif))]
     count: Mutex<usize>,
+    #[cfg(may_verif)]
+    count: Mutex<crate::verif::Counted>,
 }
 
 impl Default for WaitGroup {
@@ -60,7 +63,10 @@ impl Default for WaitGroup {
         Self {
             inner: Arc::new(Inner {
                 cvar: Condvar::new(),
+                #[cfg(not(may_verif))]
                 count: Mutex::new(1),
+                #[cfg(may_verif)]
+                count: Mutex::new(crate::verif::Counted::new(1)),
             }),
         }
     }
@@ -140,6 +146,15 @@ impl Clone for WaitGroup {
     }
 }
 
+#[cfg(may_verif)]
+impl fmt::Debug for WaitGroup {
+    fn fmt(&self, f: &mut fmt::Formatter<'_>) -> fmt::Result {
+        let count = self.inner.count.lock().unwrap().get();
+        f.debug_struct("WaitGroup").field("count", &count).finish()
+    }
+}
+
+#[cfg(not(may_verif))]
 impl fmt::Debug for WaitGroup {
     fn fmt(&self, f: &mut fmt::Formatter<'_>) -> fmt::Result {
         let count: &usize = &self.inner.count.lock().unwrap();
